@@ -569,6 +569,33 @@ func (r *mslRules) checkVecMember(c *checker, m *Member) bool {
 // ---------------------------------------------------------------------------
 
 func (r *mslRules) localVar(c *checker, v *VarDecl) bool {
+	if v.TypeX.Name == "auto" && !v.Quals.Shared {
+		// C++14 [dcl.spec.auto]: the type is deduced from the initializer
+		// (top-level cv-qualifiers and references dropped)
+		v.Init = c.value(v.Init)
+		t := v.Init.base().T
+		if t == tInitList || !mslValueType(t) || r.st.zeroConv[t] {
+			c.unsupported(v.Pos, "auto deduced from an initializer of type %s", mslTypeString(t))
+		}
+		if t.Kind == KOpaque || t.containsKind(KOpaque) {
+			c.unsupported(v.Pos, "local variable of type %s", mslTypeString(t))
+		}
+		v.T = t
+		s := &Symbol{Kind: SymLocal, Name: v.Name, T: t, Pos: v.Pos, Slot: c.frame, ReadOnly: v.Quals.Const}
+		c.frame += t.nsc
+		if c.frame > c.fn.FrameSize {
+			c.fn.FrameSize = c.frame
+		}
+		if v.Quals.Const && v.Init.base().Const {
+			if cv, ok := c.fold(v.Init); ok {
+				s.Const = true
+				s.CV = &cv
+			}
+		}
+		v.Sym = s
+		c.declare(s, "local")
+		return true
+	}
 	if !v.Quals.Shared {
 		if t := c.resolveType(&TypeExpr{Pos: v.TypeX.Pos, Name: v.TypeX.Name}, unsizedNo); t.Kind == KOpaque || t.containsKind(KOpaque) {
 			c.unsupported(v.Pos, "local variable of type %s", mslTypeString(t))
@@ -824,6 +851,9 @@ func (r *mslRules) function(c *checker, fn *Function) {
 			return
 		}
 	}
+	if r.st.unsupportedFn[fn] == nil {
+		r.checkCallSpaces(c, fn)
+	}
 	if fi == nil || fi.Stage == "" {
 		return
 	}
@@ -1016,4 +1046,189 @@ func (r *mslRules) resolveTemplateCall(c *checker, x *mslTemplateCall) *Function
 	in.tpl.instances[in.key] = fn
 	withScope(in.tpl, in.bind, func() { c.function(fn) })
 	return fn
+}
+
+// ---------------------------------------------------------------------------
+// address spaces of reference arguments (MSL §4: a reference or pointer is
+// declared with the address space of the object it designates; binding it to
+// an object of another address space is ill-formed)
+// ---------------------------------------------------------------------------
+
+// exprSpace returns the address space of the object designated by an l-value
+// expression inside fn ("" when it cannot be told).
+func (r *mslRules) exprSpace(fn *Function, e Expr) string {
+	if cd, ok := e.(*Cond); ok {
+		a, b := r.exprSpace(fn, cd.A), r.exprSpace(fn, cd.B)
+		if a == b {
+			return a
+		}
+		return ""
+	}
+	s, _ := rootSymbol(e)
+	if s == nil {
+		return ""
+	}
+	switch s.Kind {
+	case SymParam:
+		for _, p := range fn.Params {
+			if p.Sym == s {
+				if pi := r.st.paramInfo[p]; pi != nil && (pi.Ref || pi.Ptr) {
+					return pi.Space
+				}
+			}
+		}
+		return "thread"
+	case SymLocal:
+		return "thread"
+	case SymGlobal:
+		switch s.Global.Storage {
+		case "shared":
+			return "threadgroup"
+		case "const":
+			return "constant"
+		}
+	}
+	return ""
+}
+
+// checkCallSpaces walks the body of fn and checks every call of a user
+// function: a reference parameter binds only to an object of its own address
+// space.
+func (r *mslRules) checkCallSpaces(c *checker, fn *Function) {
+	if fn.Body == nil {
+		return
+	}
+	var visitE func(e Expr)
+	call := func(x *Call) {
+		if x.Fn == nil {
+			return
+		}
+		for i, p := range x.Fn.Params {
+			pi := r.st.paramInfo[p]
+			if pi == nil || !pi.Ref || i >= len(x.Args) {
+				continue
+			}
+			got := r.exprSpace(fn, x.Args[i])
+			if got != "" && got != pi.Space {
+				c.invalid(x.Args[i].base().Pos, "type", "argument %d of %s: a reference to the %s address space cannot bind to an object in the %s address space (MSL §4)", i+1, x.Fn.Name, pi.Space, got)
+			}
+		}
+	}
+	visitE = func(e Expr) {
+		switch x := e.(type) {
+		case nil:
+		case *Unary:
+			visitE(x.X)
+		case *IncDec:
+			visitE(x.X)
+		case *Binary:
+			visitE(x.L)
+			visitE(x.R)
+		case *Assign:
+			visitE(x.L)
+			visitE(x.R)
+		case *Cond:
+			visitE(x.C)
+			visitE(x.A)
+			visitE(x.B)
+		case *Call:
+			for _, a := range x.Args {
+				visitE(a)
+			}
+			call(x)
+		case *Index:
+			visitE(x.X)
+			visitE(x.I)
+		case *Member:
+			visitE(x.X)
+		case *Method:
+			visitE(x.X)
+			for _, a := range x.Args {
+				visitE(a)
+			}
+		case *Convert:
+			visitE(x.X)
+		case *Comma:
+			visitE(x.L)
+			visitE(x.R)
+		case *mslCast:
+			for _, a := range x.Args {
+				visitE(a)
+			}
+		case *mslAsType:
+			visitE(x.X)
+		case *mslBrace:
+			for _, it := range x.items {
+				visitE(it.e)
+			}
+		case *mslAddrOf:
+			visitE(x.X)
+		case *mslCall:
+			for _, a := range x.Args {
+				visitE(a)
+			}
+		case *mslTemplateCall:
+			for _, a := range x.Args {
+				visitE(a)
+			}
+			if x.call != nil {
+				call(x.call)
+			}
+		case *mslConv:
+			visitE(x.X)
+		}
+	}
+	var visitS func(s Stmt)
+	visitS = func(s Stmt) {
+		switch x := s.(type) {
+		case nil:
+		case *BlockStmt:
+			for _, st := range x.Stmts {
+				visitS(st)
+			}
+		case *DeclStmt:
+			for _, v := range x.Vars {
+				if v.Init != nil {
+					visitE(v.Init)
+				}
+			}
+		case *ExprStmt:
+			if x.X != nil {
+				visitE(x.X)
+			}
+		case *IfStmt:
+			visitE(x.Cond)
+			visitS(x.Then)
+			if x.Else != nil {
+				visitS(x.Else)
+			}
+		case *ForStmt:
+			if x.Init != nil {
+				visitS(x.Init)
+			}
+			if x.Cond != nil {
+				visitE(x.Cond)
+			}
+			if x.Post != nil {
+				visitE(x.Post)
+			}
+			visitS(x.Body)
+		case *WhileStmt:
+			visitE(x.Cond)
+			visitS(x.Body)
+		case *DoWhileStmt:
+			visitS(x.Body)
+			visitE(x.Cond)
+		case *SwitchStmt:
+			visitE(x.X)
+			for _, st := range x.Body {
+				visitS(st)
+			}
+		case *ReturnStmt:
+			if x.X != nil {
+				visitE(x.X)
+			}
+		}
+	}
+	visitS(fn.Body)
 }
